@@ -1667,3 +1667,98 @@ theorem calls_payloads : ∀ (cs : List (EncCall α)) (o : EncObj α),
 
 end
 end CaddyModel.C15
+
+/-! ## 101 Switching Protocols: final for net/http, "informational" for the writer -/
+namespace CaddyModel.C15
+
+section
+variable {α : Type}
+
+/-- the response has been fixed as `101 Switching Protocols` -/
+def Final101 (st : St α) : Prop := ∃ h, st.sent = some (101, h)
+
+theorem inv_rwWriteHeader_101_committed {cfg : Cfg α} {name : Bytes} {st : St α}
+    (h : Inv cfg name st) (hw : st.wroteHeader = true) : Inv cfg name (rwWriteHeader st 101) := by
+  have e : rwWriteHeader st 101 = dsWriteHeader { st with statusCode := 101 } 101 := by
+    simp [rwWriteHeader, informational, connectImmediate, vary304, is1xx]
+  rw [e]
+  have h0 : Inv cfg name ({ st with statusCode := 101 } : St α) := h.congr rfl rfl rfl rfl rfl
+  refine h0.ext (.wh 101 st.hdr) rfl rfl rfl rfl ?_ ?_ ?_
+  · intro hw'; simp [hw] at hw'
+  · intro ho
+    obtain ⟨x, hx⟩ := h.sent_of_open ho
+    exact ⟨rfl, by simp [dsWriteHeader, isInformational, is1xx, hx, fixSent]⟩
+  · intros; rfl
+
+theorem uncommitted_101 {cfg : Cfg α} {name : Bytes} {st : St α}
+    (h : Inv cfg name st) (hw : st.wroteHeader = false) : Final101 (rwWriteHeader st 101) := by
+  have hs := (h.pre hw).1
+  refine ⟨st.hdr, ?_⟩
+  simp [rwWriteHeader, informational, connectImmediate, vary304, is1xx, dsWriteHeader, isInformational, hs, fixSent]
+
+theorem final101_step (cfg : Cfg α) (st : St α) (op : Op α) (h : Final101 st) : Final101 (step cfg st op) := by
+  cases op with
+  | writeHeader s => obtain ⟨hh, e⟩ := h; exact ⟨hh, sent_rwWriteHeader st s _ e⟩
+  | write p =>
+    rcases held_step cfg 101 (by decide) (by decide) st (.write p) (fun i => by simp) (Or.inr h) with ⟨_, hn, _⟩ | h'
+    · obtain ⟨hh, e⟩ := h
+      have := sent_rwWrite cfg st p _ e
+      simp only [step] at hn; rw [this] at hn; cases hn
+    · exact h'
+  | flush => obtain ⟨hh, e⟩ := h; exact ⟨hh, sent_rwFlush st _ e⟩
+  | readFrom cs =>
+    rcases held_step cfg 101 (by decide) (by decide) st (.readFrom cs) (fun i => by simp) (Or.inr h) with ⟨hw, hn, _⟩ | h'
+    · -- impossible: the header that was sent stays sent
+      exfalso
+      obtain ⟨hh, e⟩ := h
+      have key : ∀ (x : Nat × Hdr), st.sent = some x → (step cfg st (.readFrom cs)).sent = some x := by
+        intro x hx
+        simp only [step, rwReadFrom]
+        split
+        · unfold afterSniff
+          have hsn : ∀ (chunks : List α) (n : Nat) (s0 : St α), s0.sent = some x →
+              (sniffLoop cfg chunks n s0).1.sent = some x := by
+            intro chunks
+            induction chunks with
+            | nil => intro n s0 h0; simpa [sniffLoop] using h0
+            | cons c cs ih =>
+              intro n s0 h0
+              unfold sniffLoop
+              split
+              · exact h0
+              · exact ih _ _ (sent_rwWrite cfg s0 c x h0)
+          split
+          · exact sent_copyRest _ _ _ (hsn _ _ _ hx)
+          · exact hsn _ _ _ hx
+        · exact sent_copyRest _ _ _ hx
+      rw [key _ e] at hn; cases hn
+    · exact h'
+  | hset k v => exact h
+  | hadd k v => exact h
+  | hdel k => exact h
+
+theorem final101_run (cfg : Cfg α) : ∀ (ops : List (Op α)) (st : St α), Final101 st → Final101 (run cfg st ops)
+  | [], _, h => h
+  | op :: ops, st, h => by
+    have : run cfg st (op :: ops) = run cfg (step cfg st op) ops := rfl
+    rw [this]; exact final101_run cfg ops _ (final101_step cfg st op h)
+
+/-- at every point of every script: the invariant holds, or the response is already fixed as 101 -/
+theorem inv_or_101_run {cfg : Cfg α} {name : Bytes} : ∀ (ops : List (Op α)) (st : St α),
+    Inv cfg name st → Inv cfg name (run cfg st ops) ∨ Final101 (run cfg st ops)
+  | [], _, h => Or.inl h
+  | op :: ops, st, h => by
+    have e : run cfg st (op :: ops) = run cfg (step cfg st op) ops := rfl
+    rw [e]
+    by_cases h101 : op = Op.writeHeader 101
+    · subst h101
+      cases hw : st.wroteHeader with
+      | true => exact inv_or_101_run ops _ (inv_rwWriteHeader_101_committed h hw)
+      | false => exact Or.inr (final101_run cfg ops _ (uncommitted_101 h hw))
+    · exact inv_or_101_run ops _ (inv_step op h101 h)
+
+theorem final101_rwClose (cfg : Cfg α) (st : St α) (h : Final101 st) : Final101 (rwClose cfg st) :=
+  held_rwClose cfg 101 (by decide) (by decide) st (Or.inr h)
+
+end
+end CaddyModel.C15
